@@ -1376,6 +1376,9 @@ class TimestampWeightedTally(WeightedTally):
             raise ValueError("tally registered value cannot be nan")
         if math.isnan(timestamp):
             raise ValueError("tally timestamp cannot be nan")
+        # a Duration timestamp (simulator time of a DEVSSimulatorDuration) 
+        # is handled as its SI value
+        timestamp = float(timestamp)
         if timestamp < self._last_timestamp:
             raise ValueError("tally timestamp before last timestamp")
         # only calculate when the time interval is larger than 0, 
